@@ -65,7 +65,7 @@ def exact_usage(U, chunk):
     dx, vms, index, prog = o.value
     v = S.view(dx)
     want_s = {"s1": [(("LB;", False), ("LB;", "m1", "()V", False), 12)]}
-    want_new, want_const = {}, {}
+    want_new, want_const = {"LC;": [(("LB;", "m1", "()V", False), 20)]}, {}
     for off, kind, tgt in prog:
         if kind == "string":
             want_s.setdefault(tgt, []).append((("LA;", False), S.A_M1, off))
@@ -82,8 +82,8 @@ def exact_usage(U, chunk):
         U.ensures("class-reference list of each class is exact", cx["const"] == sorted(want_const.get(ck[0], [])), cls=ck, got=cx["const"], **g)
     me = v["methods"][S.A_M1]
     U.ensures("the method's own lists mirror them",
-              sorted((c[0], o2) for c, o2 in me["new"]) == sorted((c, o2) for c, l in want_new.items() for _, o2 in l) and
-              sorted((c[0], o2) for c, o2 in me["const"]) == sorted((c, o2) for c, l in want_const.items() for _, o2 in l),
+              sorted((c[0], o2) for c, o2 in me["new"]) == sorted((c, o2) for c, l in want_new.items() for m_, o2 in l if m_ == S.A_M1) and
+              sorted((c[0], o2) for c, o2 in me["const"]) == sorted((c, o2) for c, l in want_const.items() for m_, o2 in l if m_ == S.A_M1),
               got=(me["new"], me["const"]), **g)
 
 
